@@ -118,7 +118,7 @@ pub fn run(ctx: &mut Ctx) -> bool {
             blackbox::run_c08_long(ctx);
         }
         "C16" => {
-            ctx.rule = "Cases are UCI sessions: 0-25 well-formed commands of earlier traffic (positions with move lists and repetition cycles, go with slices <= 30 ms, ucinewgame, setoption incl. the logging option, isready, ignorable lines; in a third of the cases also the probe's own position line followed by a go), then the probe (one in eight: the bare `position startpos` without a move list) `position X` + `go` (zero allowance) + `position X` + `go` (40-120 ms) sent twice. Oracle (differential): the zero-allowance bestmove equals that of a fresh process given only the probe; the timed runs' sequences of (depth, nodes, score, first pv move) agree with the fresh process and with each other on their common prefix. A second family plays the normal flow of a game: the engine searches P with a real slice, the game continues with its move and the reply it expected (second pv move), and `position P moves b r` + go must be answered like a fresh engine. A third family puts MANY searches between two probes of the same position: probe, then 126-130 / 253-259 / 509-515 searches of other positions (zero allowance, fenced every 64), then the probe again, both compared with a fresh process - the counts straddle the 7-, 8- and 9-bit limits of anything the session might count or age. In a third of the sessions the probe follows the earlier traffic without a quiescing pause. A difference must reproduce in one (two) further complete attempts. Non-trivial = earlier traffic containing a go and either a long move list or the probe's own position line, or a continuation round; distinct by session.".into();
+            ctx.rule = "Cases are UCI sessions: 0-25 well-formed commands of earlier traffic (positions with move lists and repetition cycles, go with slices <= 30 ms, ucinewgame, setoption incl. the logging option, isready, ignorable lines; in a third of the cases also the probe's own position line followed by a go), then the probe (one in eight: the bare `position startpos` without a move list) `position X` + `go` (zero allowance) + `position X` + `go` (40-120 ms) sent twice. Oracle (differential): the zero-allowance bestmove equals that of a fresh process given only the probe; the timed runs' sequences of (depth, nodes, score, first pv move) agree with the fresh process and with each other on their common prefix. A second family plays the normal flow of a game: the engine searches P with a real slice, the game continues with its move and the reply it expected (second pv move), and `position P moves b r` + go must be answered like a fresh engine. A third family puts MANY searches between two probes of the same position: probe, then 126-130 / 253-259 / 509-515 searches of other positions (zero allowance, fenced every 64), then the probe again, both compared with a fresh process - the counts straddle the 7-, 8- and 9-bit limits of anything the session might count or age; in half of those sessions a timed search of a short forced mate (it runs through all its iterations and ends of its own accord) is followed directly by a TIMED probe, of the session's position and of a position related to the finished search (same material, one man shifted or a pawn added). In a third of the sessions the probe follows the earlier traffic without a quiescing pause. A difference must reproduce in one (two) further complete attempts. Non-trivial = earlier traffic containing a go and either a long move list or the probe's own position line, or a continuation round; distinct by session.".into();
             ctx.assumptions = vec!["the timed bestmove itself is not compared (it legitimately depends on where the clock cuts)".into()];
             blackbox::run_c16(ctx);
             blackbox::run_c16_continuation(ctx);
